@@ -2775,9 +2775,11 @@ static double amplgsl_cdf_gamma_P(arglist *al) {
   double x = al->ra[0], a = al->ra[1], b = al->ra[2];
   if (al->derivs && check_const_arg(al, 1, "a") &&
       check_const_arg(al, 2, "b") && !al->dig[0]) {
-    *al->derivs = pow(x / b, a) / (exp(x / b) * x * gsl_sf_gamma(a));
+    /* The distribution function is identically 0 for x <= 0. */
+    *al->derivs = x > 0 ?
+        pow(x / b, a) / (exp(x / b) * x * gsl_sf_gamma(a)) : 0;
     if (al->hes)
-      *al->hes = *al->derivs * ((a - 1) / x - 1 / b);
+      *al->hes = x > 0 ? *al->derivs * ((a - 1) / x - 1 / b) : 0;
   }
   return check_result(al, gsl_cdf_gamma_P(x, a, b));
 }
